@@ -308,7 +308,7 @@ fn run(ctx: &mut Ctx) {
                     format!("a well-scoped program is rejected ({}): {}", st, util::truncate(&msg, 200)),
                     json!({"label": label, "source": print_program(&prog, PrintOpts::default())}),
                 ),
-                Outcome::Inconclusive(r) => c.inconclusive(diff::msg_class(&r)),
+                Outcome::Inconclusive(r) => diff::inconclusive_unless_crash(c, "C05", &r, &label, &print_program(&prog, PrintOpts::default())),
                 Outcome::Violation => {}
             }
             if j == 0 {
